@@ -80,7 +80,12 @@ def _grid(en):
   n = L + pad
   lseq = E.SymSeq(n, lambda k: z3.If(E.to_z3(k) < L, z3.ToReal(E.to_z3(k)), z3.RealVal(0)), z3.RealSort(), 'l')
   rows = en.int('modal_rows')
-  g = E.Obj(class_ref=sh.Grid, total_wavenumbers=L, radius=r, modal_axes=(None, lseq), modal_shape=(rows, n), modal_padding=(en.int('modal_padding_m'), pad))
+  npl, npt = en.int('nodal_padding_lon'), en.int('nodal_padding_lat')
+  en.assume(z3.And(npl >= 0, npt >= 0))
+  # attributes the functions under contract do not need are still given (as unconstrained symbols), so that a variant of the code that reads
+  # them is decided instead of falling outside the subset
+  g = E.Obj(class_ref=sh.Grid, total_wavenumbers=L, radius=r, modal_axes=(None, lseq), modal_shape=(rows, n), modal_padding=(en.int('modal_padding_m'), pad),
+            nodal_padding=(npl, npt), nodal_shape=(en.int('nodal_lon'), en.int('nodal_lat')), longitude_wavenumbers=en.int('longitude_wavenumbers'), spmd_mesh=None)
   x = E.SymSeq(n, lambda k: X(E.to_z3(k)), z3.RealSort(), 'x')
   return g, L, pad, r, n, x
 
